@@ -40,6 +40,17 @@
 (* not affected, removals are visible at once.  `fresh` is the set of      *)
 (* such files.                                                             *)
 (*                                                                         *)
+(* Modifications (MaxMods > 0): a worker of the lock holder issues non-lock *)
+(* modifications through the connection limiting backend (sema), which the *)
+(* forced refresh FREEZES (tryRefreshStaleLock: Freeze - refreshStaleLock -  *)
+(* cancel on failure - Unfreeze).  A modification issued while frozen waits *)
+(* at the freeze gate and looks at the context only afterwards, so it does  *)
+(* not reach the storage when the forced refresh failed (wac = "write after *)
+(* cancel" never becomes TRUE).  Twin "ctxcheckfirst": the context is        *)
+(* looked at before the gate.  Binding limits: a modification is issued      *)
+(* while frozen only where no virtual time has to pass before Unfreeze       *)
+(* (SafeGate), and no Wait / Tick happens while one waits at the gate.       *)
+(*                                                                         *)
 (* A third party whose clock is ahead by up to the documented margin       *)
 (* (MaxSkew = 3 units = 7.5 min) can remove the lock file of a LIVE holder *)
 (* (older than 22.5 min) while the holder's expiry monitor is just forcing *)
@@ -61,6 +72,7 @@ CONSTANTS N, MaxTime, MaxSkew, Budget, Variant, Faults, MaxToggle, Removal, Remo
           HealOdds,  \* schedule generation: a fault ends with probability 1/HealOdds per step
           ListLag,   \* BOOLEAN: listings show a new lock file only after time has passed (next Wait / Tick)
           FixSkew,   \* BOOLEAN: the third party's clock is ahead by exactly MaxSkew (else any value in -MaxSkew..MaxSkew)
+          MaxMods,   \* number of non-lock modifications the worker of a lock holder issues (0: none)
           Edge       \* BOOLEAN: the third party judges a lock file stale at age >= STALE (not only > STALE): all sleeps and
                      \* polls take no time here, in reality the expiry monitor forces the refresh when the lock file is
                      \* 22.5 min + 200 ms (+ <= 1 s) old, so that a clock ahead by exactly 7.5 min already sees it stale
@@ -87,7 +99,8 @@ Visible  == files \ fresh       \* what a listing of the lock directory shows
 
 InitProc(s) == [pc |-> "idle", x |-> FALSE, mine |-> NoFile, repl |-> NoFile, listed |-> {}, checked |-> {},
                 tries |-> 0, att |-> 0, phase |-> 1, ctx |-> FALSE, lastRef |-> 0, monRef |-> 0, nextRef |-> 0,
-                forcing |-> FALSE, skew |-> s, down |-> {}, since |-> 0, used |-> 0, robbed |-> FALSE, robbedAt |-> 0, ts |-> 0, newest |-> 0, gen |-> 0]
+                forcing |-> FALSE, skew |-> s, down |-> {}, since |-> 0, used |-> 0, robbed |-> FALSE, robbedAt |-> 0, ts |-> 0, newest |-> 0, gen |-> 0,
+                mod |-> "none", passed |-> FALSE, nmods |-> 0, wac |-> FALSE]
 
 Init ==
   /\ now = 0
@@ -102,7 +115,7 @@ Init ==
 
 \* forget what cannot matter any more (keeps the state space small)
 Norm(r) ==
-  IF r.pc \in Terminal THEN [InitProc(0) EXCEPT !.pc = r.pc]
+  IF r.pc \in Terminal THEN [InitProc(0) EXCEPT !.pc = r.pc, !.wac = r.wac]
   ELSE LET r1 == IF r.pc \in OpStates THEN r ELSE [r EXCEPT !.since = 0]
        IN  IF r1.pc \in HoldStates \cup {"unl"}
            THEN [r1 EXCEPT !.tries = 0, !.att = 0, !.phase = 1, !.checked = {}, !.listed = {}]
@@ -116,9 +129,17 @@ H(op, p, x, k) == [op |-> op, p |-> p, x |-> x, k |-> k]
 Rec(h) == hist' = IF Emit THEN Append(hist, h) ELSE hist
 
 \* process p moves to record r (a backend operation ends a stall) and the schedule gets one more entry
+\* Unfreeze: the modification waiting at the freeze gate goes on; it reaches the storage iff the context is alive
+\* when it is looked at - after the gate (code) or before it (twin "ctxcheckfirst")
+Resolve(old, r) ==
+  IF old.mod = "blocked" /\ r.pc \notin FStates
+  THEN LET applied == IF Variant = "ctxcheckfirst" THEN old.passed ELSE r.ctx IN
+       [r EXCEPT !.mod = "none", !.passed = FALSE, !.wac = @ \/ (applied /\ ~r.ctx)]
+  ELSE r
+
 Move(p, r, h) ==
-  /\ pr' = [pr EXCEPT ![p] = Norm([r EXCEPT !.since = now,
-                                            !.used = IF pr[p].pc \in OpStates THEN @ + (now - pr[p].since) ELSE @])]
+  /\ pr' = [pr EXCEPT ![p] = Norm(Resolve(pr[p], [r EXCEPT !.since = now,
+                                            !.used = IF pr[p].pc \in OpStates THEN @ + (now - pr[p].since) ELSE @]))]
   /\ Rec(h)
   /\ UNCHANGED <<now, skewU, toggles, waits, emitted>>
 
@@ -284,6 +305,24 @@ FRm(p) ==
           /\ Move(p, [r1 EXCEPT !.lastRef = r.ts, !.monRef = Local(p), !.forcing = FALSE, !.pc = Ret([r1 EXCEPT !.forcing = FALSE])], StepH(p))
 
 ---------------------------------------------------------------------------
+(* the worker of the lock holder issues a non-lock modification (through the freezable backend) *)
+
+Frozen(r)   == r.pc \in FStates
+SafeGate(r) == \/ r.pc \in {"f2", "frm", "fclean", "fcleanok"}
+               \/ r.pc = "f1" /\ "List" \in r.down
+               \/ r.pc = "fsave" /\ r.down \cap {"Save", "SaveAfter"} # {}
+ModBlocked  == \E p \in Procs : pr[p].mod = "blocked"
+
+Issue(p) ==
+  LET r == pr[p] IN
+  /\ r.nmods < MaxMods /\ r.mod = "none" /\ r.pc \in HoldStates
+  /\ Frozen(r) => SafeGate(r)
+  /\ pr' = [pr EXCEPT ![p] = IF Frozen(r) THEN [r EXCEPT !.mod = "blocked", !.passed = r.ctx, !.nmods = @ + 1]
+                             ELSE [r EXCEPT !.nmods = @ + 1]]     \* not frozen: done at once, iff the context is alive
+  /\ Rec(H("mod", p, FALSE, ""))
+  /\ UNCHANGED <<now, files, skewU, toggles, waits, emitted>>
+
+---------------------------------------------------------------------------
 (* release, crash *)
 
 Unl(p) ==
@@ -362,7 +401,7 @@ Fire(r, lp, tn) ==
   ELSE r1
 
 Wait ==
-  /\ waits < MaxWaits
+  /\ waits < MaxWaits /\ ~ModBlocked
   /\ \E p \in Procs : TimerDue(pr[p], Local(p))
   /\ pr' = [p \in Procs |-> Norm(Fire(pr[p], Local(p), now))]
   /\ waits' = waits + 1
@@ -372,7 +411,7 @@ Wait ==
 StallOk(r) == r.pc \in OpStates => r.used + (now + 1 - r.since) <= Budget
 
 Tick ==
-  /\ now < MaxTime
+  /\ now < MaxTime /\ ~ModBlocked
   /\ \A p \in Procs : StallOk(pr[p]) /\ ~TimerDue(pr[p], Local(p))    \* sleeps and retry delays are short
   /\ now' = now + 1
   /\ waits' = 0
@@ -384,7 +423,7 @@ ProcStep(p) ==
   \/ ListOp(p) \/ (\E f \in pr[p].listed : LoadOp(p, f)) \/ Create(p) \/ RmOwn(p) \/ Again(p)
   \/ RSave(p) \/ RRm(p) \/ F1(p) \/ FSave(p) \/ F2(p) \/ FClean(p) \/ FRm(p)
   \/ Unl(p) \/ Unlock(p) \/ Crash(p)
-  \/ (\E k \in Faults : Fail(p, k)) \/ Heal(p) \/ Del(p)
+  \/ (\E k \in Faults : Fail(p, k)) \/ Heal(p) \/ Del(p) \/ Issue(p)
 
 Busy == (~Sim \/ Len(hist) < HistMax) /\ ~emitted
 
@@ -413,13 +452,15 @@ B2I(b) == IF b THEN 1 ELSE 0
 SetToSeq0(S) == SetToSeq(S)
 
 Believes(p) == pr[p].pc \in HoldStates
+\* newest lock file of p that p did not remove itself: one that is still there, or the one its handle points to
+KeptOf(p) == LET T == {f.t : f \in {g \in files : g.o = p}} \cup {pr[p].mine.t} IN CHOOSE t \in T : \A u \in T : u <= t
 \* times are reported on the reference clock (a lock file carries its owner's clock)
 ObsOf ==
   [now |-> now * UnitMs,
    f   |-> SetToSeq0({<<f.o, (f.t - pr[f.o].skew) * UnitMs, B2I(f.x)>> : f \in {g \in files : g.o \in Procs}}),
    p   |-> [p \in Procs |-> <<B2I(Believes(p)), B2I(pr[p].ctx), B2I(pr[p].x), B2I(pr[p].robbed),
                               (pr[p].used + (IF pr[p].pc \in OpStates THEN now - pr[p].since ELSE 0)) * UnitMs, 0, 0,
-                              pr[p].newest * UnitMs, pr[p].robbedAt * UnitMs>>],
+                              pr[p].newest * UnitMs, pr[p].robbedAt * UnitMs, KeptOf(p) * UnitMs>>],
    r   |-> SetToSeq0({<<f.t * UnitMs, B2I(f.x)>> : f \in {g \in files : g.o = 0}})]
 
 InvExclusion     == Exclusion(ObsOf)
@@ -435,6 +476,9 @@ InvNotStale ==
       \E f \in files : f.o = p /\ \A s \in (0 - MaxSkew)..MaxSkew : (now + s) - f.t <= STALE
 
 \* for the "code" variant: TLC's counterexample is printed as a schedule, which the harness replays into the real code
+\* C13: no modification reaches the storage after the forced refresh failed and cancelled the context
+InvNoWriteAfterCancel == \A p \in Procs : ~pr[p].wac
+
 InvNotStaleEmit == InvNotStale \/ ~PrintT(<<"SCHED", ToJson(hist)>>)
 
 ---------------------------------------------------------------------------
@@ -444,7 +488,9 @@ InvNotStaleEmit == InvNotStale \/ ~PrintT(<<"SCHED", ToJson(hist)>>)
 (* below are never violated: they print once per goal (register k of TLCGet/TLCSet).                               *)
 GoalNames == <<"robbed-before-fsave-newcomer-holds", "robbed-before-f2", "forced-refresh-remove-fault", "forced-refresh-cleanup",
                "conflict-in-second-check", "handover-during-refresh", "both-in-second-check", "second-attempt-holds",
-               "forced-refresh-succeeded", "robbed-before-f1-newcomer-holds">>
+               "forced-refresh-succeeded", "robbed-before-f1-newcomer-holds",
+               "refresh-remove-finds-file-missing", "modification-waits-while-forced-refresh-fails",
+               "modification-waits-while-forced-refresh-succeeds">>
 ASSUME \A k \in 1..Len(GoalNames) : TLCSet(k, 0)
 Goal(k, G) == ~G \/ TLCGet(k) = 1 \/ (TLCSet(k, 1) /\ PrintT(<<"GOAL", GoalNames[k], ToJson(hist)>>))
 HoldsNow(p) == pr[p].pc = "hold" /\ pr[p].ctx
@@ -460,6 +506,9 @@ InvGoal7  == Goal(7, N >= 2 /\ pr[1].pc = "load" /\ pr[1].phase = 2 /\ pr[2].pc 
 InvGoal8  == Goal(8, \E p \in Procs : pr[p].pc = "sleep" /\ pr[p].att = 2)
 InvGoal9  == Goal(9, pr[1].pc = "frm" /\ pr[1].ctx /\ pr[1].mine \in files /\ pr[1].down = {})
 InvGoal10 == Goal(10, N >= 2 /\ pr[1].pc \in {"hold", "f1"} /\ pr[1].ctx /\ pr[1].mine \notin files /\ HoldsNow(2) /\ (pr[1].x \/ pr[2].x))
+InvGoal11 == Goal(11, pr[1].pc = "rrm" /\ pr[1].ctx /\ pr[1].mine \notin files)
+InvGoal12 == Goal(12, pr[1].mod = "blocked" /\ pr[1].ctx /\ (pr[1].pc = "fclean" \/ (pr[1].pc = "fsave" /\ "Save" \in pr[1].down)))
+InvGoal13 == Goal(13, pr[1].mod = "blocked" /\ pr[1].ctx /\ pr[1].pc = "frm" /\ pr[1].down = {} /\ pr[1].mine \in files)
 
 TypeOK == now \in 0..MaxTime /\ \A p \in Procs : pr[p].used <= Budget
 =============================================================================
